@@ -68,7 +68,7 @@ def selftests(pid, repo, seed=0):
         import random
         random.Random(seed).shuffle(sts)
     res = []
-    with concurrent.futures.ThreadPoolExecutor(max_workers=8) as ex:
+    with concurrent.futures.ProcessPoolExecutor(max_workers=max(2, min(16, os.cpu_count() or 4))) as ex:
         futs = [ex.submit(run_one, pid, repo, st) for st in sts]
         for f in futs:
             try:
@@ -123,19 +123,27 @@ def corpus(pid, repo):
         if n.startswith(pid + "-"):
             jobs.append(("seed", n, os.path.join(sdir, n, "patch.diff")))
     out = []
-
-    def one(job):
-        kind, name, patch = job
-        st, keys, inc = _run_patch(pid, repo, patch)
-        if st != "ran":
-            return {"kind": kind, "name": name, "status": st, "why": inc[:1]}
-        if kind == "refactor":
-            return {"kind": kind, "name": name, "status": "FALSE-ALARM" if keys else ("undecided" if inc else "silent"), "keys": keys[:3], "inconclusive": inc[:2]}
-        return {"kind": kind, "name": name, "status": "fired" if keys else "MISSED", "keys": keys[:3], "inconclusive": inc[:2]}
-    with concurrent.futures.ThreadPoolExecutor(max_workers=8) as ex:
-        for r in ex.map(one, jobs):
-            out.append(r)
+    workers = max(2, min(16, (os.cpu_count() or 4)))
+    try:
+        with concurrent.futures.ProcessPoolExecutor(max_workers=workers) as ex:
+            for r in ex.map(_corpus_job, [(pid, repo) + j for j in jobs], chunksize=2):
+                out.append(r)
+    except (OSError, concurrent.futures.process.BrokenProcessPool):
+        out = [_corpus_job((pid, repo) + j) for j in jobs]
     return out
+
+
+def _corpus_job(job):
+    pid, repo, kind, name, patch = job
+    try:
+        st, keys, inc = _run_patch(pid, repo, patch)
+    except Exception as e:       # never a verdict
+        return {"kind": kind, "name": name, "status": "not-applicable", "why": [str(e)[:120]]}
+    if st != "ran":
+        return {"kind": kind, "name": name, "status": st, "why": inc[:1]}
+    if kind == "refactor":
+        return {"kind": kind, "name": name, "status": "FALSE-ALARM" if keys else ("undecided" if inc else "silent"), "keys": keys[:3], "inconclusive": inc[:2]}
+    return {"kind": kind, "name": name, "status": "fired" if keys else "MISSED", "keys": keys[:3], "inconclusive": inc[:2]}
 
 
 def profile_compare(repo):
